@@ -305,7 +305,7 @@ Lemma F4_refuted :
   exists env nk v r,
     norm_env "P_" env = [(nk, v)] /\
     guard_F4 (norm_env "P_" env) = true /\ guard_F3 (norm_env "P_" env) = false /\
-    load (sh_bits []) tr_id false false "P_" [] None env = Ok r /\
+    load (sh_bits []) tr_id true false "P_" [] None env = Ok r /\
     view (parse_path nk) (Map r) <> NLeaf v.
 Proof.
   exists [("P_L_0_R_S", "deep")], "l.0.r.s", "deep".
